@@ -143,9 +143,15 @@ def teardown (m : MSt) : MSt :=
   { m with out := m.out ++ [.scenFinished (m.current.getD 0) (m.stepStatus.getD .skip)],
            completed := m.completed + 1, stepStatus := none, outcomes := [], current := none }
 
+/-- `teardown` when `ctx.maximize_metrics()` raises: the closing event is already in the queue, `reset_scenario` is not
+    reached (status, cache and the scenario counter keep their values) -/
+def teardownFailing (m : MSt) : MSt :=
+  { m with out := m.out ++ [.scenFinished (m.current.getD 0) (m.stepStatus.getD .skip)], current := none }
+
 structure Scenario where
   setupFails : Bool := false
   steps : List Step := []        -- what Hypothesis would run; it stops at the first step that raises
+  teardownFails : Bool := false  -- `ctx.maximize_metrics()` raises (a target metric that cannot be aggregated)
   deriving DecidableEq, Repr
 
 /-- what escapes the scenario into Hypothesis -/
@@ -167,7 +173,10 @@ def runSteps : MSt → List Step → MSt × ScenEnd
 def runScenario (m : MSt) (sc : Scenario) : MSt × ScenEnd :=
   match setup m sc.setupFails with
   | (m', false) => (m', .exception)
-  | (m1, true) => let r := runSteps m1 sc.steps; (teardown r.1, r.2)
+  | (m1, true) =>
+    let r := runSteps m1 sc.steps
+    -- an exception out of `teardown` (called in a `finally`) replaces whatever was propagating
+    if sc.teardownFails then (teardownFailing r.1, .exception) else (teardown r.1, r.2)
 
 def ScenEnd.propagates : ScenEnd → Bool
   | .ki => true | .baseExc => true | _ => false
